@@ -3804,7 +3804,10 @@ mod c20 {
                 s.peer_addr == addr_sig(&addr) && s.peer_nodeid == peer,
                 "C20.add.new_slot_has_given_peer",
             );
-            kani::assert(s.id == ctrs.0, "C20.add.new_slot_id");
+            // the id comes from the allocator, skipping ids of live sessions (fix 795e363): it is the allocator's value
+            // unless that one is in use, and never the id of a live session
+            kani::assert(s.id != before[j].id, "C20.add.new_slot_id_differs_from_live_sessions");
+            kani::assert(s.id == ctrs.0 || (0..N).any(|k| before[k].id == ctrs.0), "C20.add.new_slot_id_is_allocator_value_unless_in_use");
             // C15: the send counter starts inside 28 bits
             kani::assert(s.msg_ctr == msg_ctr & 0x0fff_ffff, "C20.add.new_slot_send_counter_in_28_bits");
             kani::assert(after[N] == *s, "C20.add.new_slot_is_last");
